@@ -215,3 +215,10 @@ def r3(cx, rec):
     rec.need(aware or uses_url, 'query-unaware', U, None,
              'the separator before "info_hash=" does not depend on whether the announce URL already has a query string: an announce '
              'URL such as http://t/a?key=1 yields ...?key=1?info_hash=..., so the tracker receives no info_hash parameter')
+
+
+@TABLE.rule('4', 'K5b', 'the announce URL used is the document\'s, byte for byte: the reader of key "announce" does not trim, fold or replace '
+            '(shared with C17)', floor=1)
+def r4(cx, rec):
+    from rules import C17
+    C17.finders_unmodified(cx, rec, (['announce'],))
